@@ -111,6 +111,9 @@ func opFacts(s *ast.Schema, doc *ast.QueryDocument, op *ast.OperationDefinition,
 		for _, sel := range set {
 			switch x := sel.(type) {
 			case *ast.Field:
+				if x.Alias == "id" && x.Name != "id" {
+					tags["f:alias-id-on-other-field"] = true
+				}
 				dirs(x.Directives, false)
 				for _, a := range x.Arguments {
 					if a.Value != nil && a.Value.Kind != ast.Variable && hasVar(a.Value) {
